@@ -617,7 +617,59 @@ def extract_keepalive(out: Out, srcs):
     out.anchor(F, "kaPingCmp", "Cmp", lm, "client.py Client.loop_misc: self._ping_t > 0 and now - self._ping_t >= self._keepalive")
 
 
-EXTRACTORS = [extract_bytes, extract_tables, extract_keepalive]
+def extract_reader(out: Out, srcs):
+    F = "Consts"
+    c = srcs.get("client.py")
+
+    def rl():
+        f = c.func("Client._packet_read")
+        hits = [n for n in walk(f, ast.Compare) if unparse(n.left) == "len(self._in_packet['remaining_count'])"]
+        if len(hits) != 1:
+            raise Missing("if len(self._in_packet['remaining_count']) > 4")
+        body = unparse(f)
+        for frag in ("(byte_value & 127) * self._in_packet['remaining_mult']", "self._in_packet['remaining_mult'] * 128",
+                     "if byte_value & 128 == 0:", "count = 100", "count -= 1", "if count == 0:"):
+            if frag not in body:
+                raise Missing("_packet_read: " + frag)
+        cnt = [a for a in walk(f, ast.Assign) if unparse(a.targets[0]) == "count"]
+        return cmp_name(hits[0].ops[0]), const(hits[0].comparators[0]), const(cnt[0].value)
+    try:
+        a, b, n = rl()
+        out.add(F, "rlMaxBytesCmp", "Cmp", f".{a}", "client.py Client._packet_read: if len(remaining_count) > 4: return MQTT_ERR_PROTOCOL")
+        out.add(F, "rlMaxBytes", "Nat", str(b), "client.py Client._packet_read")
+        out.add(F, "readLoopMax", "Nat", str(n), "client.py Client._packet_read: count = 100 (body-read iterations per call)")
+    except Missing as e:
+        for nme in ("rlMaxBytesCmp", "rlMaxBytes", "readLoopMax"):
+            out.missing(F, nme, e)
+
+    def thresholds():
+        """length thresholds of the ack handlers and of _handle_disconnect / _handle_unsuback"""
+        res = {}
+        for fn in ("_handle_pubrel", "_handle_pubrec", "_handle_pubackcomp"):
+            f = c.func("Client." + fn)
+            body = unparse(f)
+            for frag in ("if self._in_packet['remaining_length'] < 2:", "elif self._in_packet['remaining_length'] != 2:",
+                         "if self._in_packet['remaining_length'] > 2:", "if self._in_packet['remaining_length'] > 3:"):
+                if frag not in body:
+                    raise Missing(f"{fn}: {frag}")
+        d = unparse(c.func("Client._handle_disconnect"))
+        for frag in ("if self._in_packet['remaining_length'] > 0:", "if self._in_packet['remaining_length'] > 1:"):
+            if frag not in d:
+                raise Missing("_handle_disconnect: " + frag)
+        u = unparse(c.func("Client._handle_unsuback"))
+        for frag in ("if self._in_packet['remaining_length'] < 4:", "elif self._in_packet['remaining_length'] != 2:"):
+            if frag not in u:
+                raise Missing("_handle_unsuback: " + frag)
+        k = unparse(c.func("Client._handle_connack"))
+        for frag in ("if self._in_packet['remaining_length'] < 2:", "elif self._in_packet['remaining_length'] != 2:", "if result == 1:"):
+            if frag not in k:
+                raise Missing("_handle_connack: " + frag)
+        return True
+    out.anchor(F, "handlerThresholdsOk", "Bool", thresholds,
+               "client.py: remaining-length tests of _handle_pubrel/_handle_pubrec/_handle_pubackcomp (<2, !=2, >2, >3), _handle_disconnect (>0, >1), _handle_unsuback (<4, !=2), _handle_connack (<2, !=2) are the ones Paho.Model.Reader.parseBody encodes")
+
+
+EXTRACTORS = [extract_bytes, extract_tables, extract_keepalive, extract_reader]
 
 
 def register(fn):
